@@ -515,6 +515,29 @@ func structuredMutants() []mutant {
 	for _, d := range []string{"yesterday", "", "2024/13/45 99:99", "0000/00/00 00:00", strings.Repeat("9", 3000)} {
 		message("date="+d[:min(len(d), 20)], []byte("Mid: CARRIER\r\nBody: 5\r\nDate: "+d+"\r\nFrom: N0PEER\r\nSubject: s\r\nTo: N0LIB\r\n\r\nhello\r\n"))
 	}
+	// every prefix (every length from 0) of a valid value, for every header field the station interprets: parsers
+	// that look at fixed positions of a value meet values shorter than those positions
+	fields := []struct{ name, value string }{
+		{"Date", "2024/05/17 13:45"}, {"Date", "2024.05.17 13:45"}, {"Date", "2024-05-17 13:45"}, {"Date", "20240517134500"}, {"Date", "Fri, 17 May 2024 13:45:00 +0000"},
+		{"Mid", "CARRIER"}, {"Body", "5"}, {"From", "SMTP:a@b.no"}, {"To", "SMTP:a@b.no"}, {"Cc", "N0CC@winlink.org"}, {"Type", "Private"}, {"Mbo", "N0PEER"},
+		{"Subject", "=?ISO-8859-1?Q?=E6=F8?="}, {"File", "2 ab.txt"}, {"Content-Type", "text/plain; charset=\"ISO-8859-1\""}, {"Content-Transfer-Encoding", "8bit"},
+		{"X-P2ponly", "true"}, {"X-Unread", "true"}, {"X-Filepath", "/tmp/x.b2f"},
+	}
+	for _, f := range fields {
+		for n := 0; n <= len(f.value); n++ {
+			var b strings.Builder
+			for _, h := range [][2]string{{"Mid", "CARRIER"}, {"Body", "5"}, {"Date", "2024/05/17 13:45"}, {"From", "N0PEER"}, {"Mbo", "N0PEER"}, {"Subject", "s"}, {"To", "N0LIB"}, {"Type", "Private"}} {
+				if h[0] != f.name {
+					b.WriteString(h[0] + ": " + h[1] + "\r\n")
+				}
+			}
+			b.WriteString(f.name + ": " + f.value[:n] + "\r\n\r\nhello\r\n")
+			if f.name == "File" {
+				b.WriteString("ab\r\n")
+			}
+			message(fmt.Sprintf("prefix-%s-%d-of-%q", f.name, n, f.value), []byte(b.String()))
+		}
+	}
 	message("binary-garbage", vrt.Bytes(rng, 500))
 	message("leading-whitespace-100000", []byte(strings.Repeat(" \r\n\t", 25000)+hdrs("", "Body: 5\r\n")+"hello\r\n"))
 	message("lf-only-lines", []byte("Mid: CARRIER\nBody: 5\nDate: 2024/05/17 13:45\n\nhello\n"))
